@@ -1,4 +1,5 @@
-(* C18: record of the known finding on the unchanged implementation.  In IEEE doubles the bin
+(* C18: record of a finding that has been fixed in /repo (879f8f0); the float model in Model/C18_Float.v
+   describes the code BEFORE that fix (trapezoid of edge samples).  In IEEE doubles the bin
    edges of ConstantSpectrum(1000.1, 1000.3, 1) are computed as (min + delta/2) - delta/2 and that
    plus delta; the upper edge rounds to a value above max, evaluate() returns 0 there and the single
    bin receives half its power.
